@@ -32,7 +32,8 @@ CONFIG = {
              "insert-delete-replace-reorder-retype edits, or unrelated; (iii) separate streams for the known-finding "
              "domains and the repaired ones (tagged scalars / tagged mappings and sequences, re-ordered record keys, odd "
              "mapping keys, null facing a container at the root and below it, records without identity key) and for "
-             "per-path rules / identity keys from a configuration; "
+             "per-path rules / identity keys from a configuration (incl. a stream of rules naming lists nested directly "
+             "inside positionally compared lists, judged by a reading of the configuration text independent of DifferConfig); "
              "every case under all 10 (--arrays x --aoh) combinations.  non-trivial = the two documents are not both "
              "scalars; distinct = distinct (lhs text, rhs text, config) (hash set)."),
     "trusted_base": [
@@ -316,6 +317,93 @@ def equiv(a, b, fam):
     return len(a) == len(b) and all(equiv(x, y, fam) for x, y in zip(a, b))
 
 
+class _Undecided(Exception):
+    pass
+
+
+def ruled_equiv(lhs, rhs, arrays, aoh, cfgtext):
+    """Equal as data under the readings the CONFIGURATION TEXT asks for, decided
+    without DifferConfig: a [rules] entry names, by its YAML Path in the
+    right-hand document, the list it applies to - wherever that list sits,
+    directly inside another list included - and takes precedence over the
+    command-line mode, which takes precedence over [defaults], which takes
+    precedence over `position`.  Readings: position = element by element (an
+    Array-of-Hashes under --aoh position: whole records); value = a bag of
+    whole elements.  Returns True / False, or None when this judge does not
+    decide: an identity-key mode (key / deep, finding F4's territory) is met,
+    a mode name is invalid, two rules name one list, or a ruled list has an
+    equal twin at equal coordinates (the lookup of the code compares with ==)."""
+    cp = configparser.ConfigParser()
+    try:
+        cp.read_string(cfgtext)
+    except Exception:  # noqa
+        return None
+    if not cp.sections():
+        return None
+    targets = []
+    if "rules" in cp:
+        for path, text in cp["rules"].items():
+            if "=" in text:
+                return None
+            try:
+                found = resolve(rhs, _E["YAMLPath"](path))
+            except Exception:  # noqa
+                continue            # the rule matches nothing
+            targets.extend((f, text) for f in found if kind(f.node) == "S")
+    da = cp["defaults"].get("arrays") if "defaults" in cp else None
+    dh = cp["defaults"].get("aoh") if "defaults" in cp else None
+
+    def rule_for(r, parent, ref):
+        hits = [t for f, t in targets if f.node is r]
+        twins = [t for f, t in targets if f.node is not r and f.node == r and f.parent == parent and _refeq(f.parentref, ref)]
+        if len(hits) > 1 or twins:
+            raise _Undecided()
+        return hits[0] if hits else ""
+
+    def valid(name, names):
+        if name.lower() not in names:
+            raise _Undecided()
+        return name.lower()
+
+    def arr_mode(rule):
+        if rule and rule.lower() in ARRAYS:
+            return rule.lower()
+        return valid(arrays or da or "position", ARRAYS)
+
+    def aoh_mode(rule):
+        return valid(rule or aoh or dh or "position", AOHS)
+
+    def eqv(a, b, parent, ref):
+        ka, kb = kind(a), kind(b)
+        if ka != kb:
+            return False
+        if ka == "L" or ka == "T":
+            return deq(a, b)
+        if tagval(a) != tagval(b):
+            return False
+        if ka == "M":
+            return len(a) == len(b) and all(k in b and eqv(a[k], b[k], b, k) for k in a)
+        rule = rule_for(b, parent, ref)
+        deep = True
+        if len(b) > 0 and kind(b[0]) == "M":
+            hm = aoh_mode(rule)
+            if hm in ("key", "deep"):
+                raise _Undecided()
+            if hm == "value":
+                return bag_eq(a, b, deq)
+            deep = hm == "dpos"
+        if arr_mode(rule) == "value":
+            return bag_eq(a, b, deq)
+        if not deep:
+            return deq(a, b)
+        return len(a) == len(b) and all(eqv(x, y, b, i) for i, (x, y) in enumerate(zip(a, b)))
+
+    try:
+        return eqv(lhs, rhs, None, None)
+    except _Undecided:
+        return None
+
+
 def loose_eq(a, b):
     """The loosest reading: every sequence is a bag, recursively."""
     ka, kb = kind(a), kind(b)
@@ -407,7 +495,7 @@ def same_data_verdict(lhs, rhs):
     return None
 
 
-def judge_run(lhs, rhs, arrays, aoh, has_rules, entries):
+def judge_run(lhs, rhs, arrays, aoh, has_rules, entries, cfgtext=None):
     """Returns None or (kind, text).  Kinds: crash, truth, same, change, cover, iff, account."""
     A = _E["DiffActions"]
     fam = FAMILY.get((arrays, aoh)) if not has_rules else None
@@ -454,6 +542,14 @@ def judge_run(lhs, rhs, arrays, aoh, has_rules, entries):
         if not nonsame and not eq:
             return ("iff", tagp + "the documents differ as data (%s reading) but the diff has no non-SAME entry" % fam)
     else:
+        # a rule naming a list - a nested one included - is honoured
+        req = ruled_equiv(lhs, rhs, arrays, aoh, cfgtext) if cfgtext is not None else None
+        if req is not None and nonsame and req:
+            return ("iff", tagp + "the documents are equal as data under the readings the configuration asks for (a rule naming "
+                    "a list, nested lists included, is to be honoured) but the diff has a non-SAME entry")
+        if req is not None and not nonsame and not req:
+            return ("iff", tagp + "the documents differ as data under the readings the configuration asks for (a rule naming "
+                    "a list, nested lists included, is to be honoured) but the diff has no non-SAME entry")
         if nonsame and deq(lhs, rhs):
             return ("iff", tagp + "the documents are exactly equal but the diff has a non-SAME entry")
         if not nonsame and not loose_eq(lhs, rhs):
@@ -539,7 +635,7 @@ def prepare(case):
         res["req"].append("(diff %s %s %s)" % (cfg_sexp(cfg, arrays, aoh, enc), lt, rt))
         res["obs"].append(obs)
         has_rules = cfg.config is not None
-        res["verdicts"].append(judge_run(lhs, rhs, arrays, aoh, has_rules, entries))
+        res["verdicts"].append(judge_run(lhs, rhs, arrays, aoh, has_rules, entries, cfgtext))
         if first_entries is None and not isinstance(entries, str):
             first_entries = (d, entries)
     # Differ._same_data on the root pair and on the facing children
@@ -1047,6 +1143,16 @@ CONFIG_CASES = [
     ("{a: {r: [{id: 1}, {id: 2}]}, b: {r: [{id: 1}, {id: 2}]}}", "{a: {r: [{id: 2}, {id: 1}]}, b: {r: [{id: 2}, {id: 1}]}}",
      "[rules]\n/a/r = key\n"),
     ("{x: [1, 2]}", "{x: [2, 1]}", "[rules]\n/nothing = value\n"),
+    # a rule naming a list nested DIRECTLY inside a positionally compared list (repaired: parentref was index + 1)
+    ("{a: [[1, 2, 3], [4, 5, 6]]}", "{a: [[3, 1, 2], [6, 4, 5]]}", "[rules]\n/a[0] = value\n"),
+    ("{a: [[1, 2, 3], [4, 5, 6]]}", "{a: [[3, 1, 2], [4, 5, 6]]}", "[rules]\n/a[0] = value\n"),
+    ("{a: [[1, 2, 3], [4, 5, 6]]}", "{a: [[1, 2, 3], [6, 4, 5]]}", "[rules]\n/a[1] = value\n"),
+    ("{a: [[1, 2], [3, 4]]}", "{a: [[2, 1], [4, 3]]}", "[rules]\n/a[0] = value\n/a[1] = value\n"),
+    ("{a: [[1, 2], [3, 4]]}", "{a: [[2, 1], [3, 4]]}", "[defaults]\narrays = value\n[rules]\n/a = position\n/a[1] = position\n"),
+    ("{a: [{k: 1}, [1, 2]]}", "{a: [{k: 1}, [2, 1]]}", "[rules]\n/a = dpos\n/a[1] = value\n"),
+    ("{a: [{k: [1, 2]}, {k: [3, 4]}]}", "{a: [{k: [2, 1]}, {k: [3, 4]}]}", "[rules]\n/a = dpos\n/a[0]/k = value\n"),
+    ("[[[1, 2], [3, 4]]]", "[[[1, 2], [4, 3]]]", "[rules]\n/[0][1] = value\n"),
+    ("[[1, 2], [1, 2]]", "[[2, 1], [2, 1]]", "[rules]\n/[0] = value\n"),
     ("{x: [1, 2]}", "{x: [2, 1]}", "[defaults]\narrays = VALUE\naoh = Deep\n"),
 ]
 
@@ -1116,6 +1222,44 @@ def chunks(tier, seed):
                               "[defaults]\narrays = value\naoh = value\n[rules]\n/y = position\n/r = dpos\n",
                               "[keys]\n/r = name\n", "[rules]\n/r = value\n"])
         buf.append({"l": l, "r": r, "cfg": ini, "mode": "config"})
+        if len(buf) >= size:
+            yield buf
+            buf = []
+    # rules naming lists nested directly inside lists: the elements A, B of n and, on the right, a shuffle or an
+    # edit of each; every rule table below names one or both of them (or the list inside the record of a dpos list)
+    for i in range(600 if tier == "thorough" else 150):
+        def inner():
+            return ("s", None, rng.sample([1, 2, 3, 4, "a", "b", "c d"], rng.randint(1, 4)))
+
+        def other(x):
+            els = list(x[2])
+            op = rng.random()
+            if op < 0.55:
+                rng.shuffle(els)
+            elif op < 0.7 and els:
+                els[rng.randrange(len(els))] = rng.choice([7, "z"])
+            elif op < 0.8 and els:
+                del els[rng.randrange(len(els))]
+            return ("s", None, els)
+        A, B = inner(), inner()
+        shape = i % 3
+        if shape == 0:
+            l = to_yaml(("m", None, [("n", ("s", None, [A, B]))]))
+            r = to_yaml(("m", None, [("n", ("s", None, [other(A), other(B)]))]))
+            ini = rng.choice(["[rules]\n/n[0] = value\n", "[rules]\n/n[1] = value\n", "[rules]\n/n[0] = value\n/n[1] = value\n",
+                              "[defaults]\narrays = value\n[rules]\n/n = position\n/n[1] = position\n",
+                              "[defaults]\narrays = value\n[rules]\n/n = position\n/n[0] = position\n/n[1] = position\n"])
+        elif shape == 1:
+            l = to_yaml(("m", None, [("n", ("s", None, [("m", None, [("k", A)]), B]))]))
+            r = to_yaml(("m", None, [("n", ("s", None, [("m", None, [("k", other(A))]), other(B)]))]))
+            ini = rng.choice(["[rules]\n/n = dpos\n/n[1] = value\n", "[rules]\n/n = dpos\n/n[0]/k = value\n",
+                              "[defaults]\naoh = dpos\n[rules]\n/n[1] = value\n/n[0]/k = value\n"])
+        else:
+            l = to_yaml(("s", None, [("s", None, [A, B]), A]))
+            r = to_yaml(("s", None, [("s", None, [other(A), other(B)]), other(A)]))
+            ini = rng.choice(["[rules]\n/[0][1] = value\n", "[rules]\n/[0][0] = value\n/[1] = value\n", "[rules]\n/[1] = value\n",
+                              "[rules]\n/[0][0] = value\n/[0][1] = value\n/[1] = value\n"])
+        buf.append({"l": l, "r": r, "cfg": ini, "mode": "nestedrule"})
         if len(buf) >= size:
             yield buf
             buf = []
